@@ -1,6 +1,9 @@
 import CedarVerif.Lemmas.SchemaSyntax
 import CedarVerif.Lemmas.SchemaDecl
 import CedarVerif.Lemmas.SchemaDecl2
+import CedarVerif.Lemmas.SchemaCollect
+import CedarVerif.Cedar.SchemaFmtCheck
+import CedarVerif.Lemmas.SchemaAnnot
 /-
 C09 — the JSON and the Cedar schema syntaxes denote the same schema.
 
@@ -43,11 +46,42 @@ What is proved here (about the model `Cedar/SchemaSyntax.lean`, tied to the code
                               (type leaves entity-or-common, the action normal form above, an empty-namespace entry without declarations
                               absent), under `WFFrag` (names the grammar's `Ident` accepts, no `__cedar`, `namespace_reserved_needed`)
                               and `SortedFrag` (record attributes in BTreeMap order); non-vacuity: `demoFragment`.
-NOT modelled (covered only by the four-way differential run of harness/src/c09.rs): annotations, the lexer and string escapes, the
-`BTreeMap` collection of the parsed declarations (entries are returned in source order; duplicate declarations / namespaces, which
-`build_namespace_bindings` refuses, are not detected), action `attributes`, records with additional attributes, the collision /
-unconvertible-shape checks of fmt.rs, JSON (de)serialisation, and everything `ValidatorSchema` construction does after name
-resolution (common-type inlining, cycle detection, hierarchy closure, action entities).
+  * THE `BTreeMap` COLLECTION of the parsed declarations (`Cedar/SchemaCollect.lean`: `collectFragment`, mirroring
+    `build_namespace_bindings` / `NamespaceRecord::new` / `collect_decls` / `update_namespace_record` of to_json_schema.rs and the
+    `.collect()` into `BTreeMap`s):
+    `fragment_roundtrip_collected`  for a fragment with the `BTreeMap` key invariant (`FragKeysOK`: keys distinct and in key order at
+                              every level; namespace names in the derived `InternalName` order, basename first), print → parse →
+                              duplicate checks → collection = `.ok (normFragment f)`;
+    `collect_rejects_duplicates`    a repeated entity-type / action / common-type name in one namespace is `DuplicateDeclarations`,
+                              otherwise a repeated namespace name `DuplicateNameSpaces`, otherwise accepted; end to end from tokens:
+                              `collect_rejects_duplicates_examples`; an entity type and a common type of the SAME name are not a
+                              duplicate (`collect_allows_entity_common_clash`); `collect_sorts_example`.
+    Not proved: that the output of `collectFragment` is always key-sorted (insertion sort; only used through `FragKeysOK` inputs);
+    when a text has both a duplicate and a per-declaration conversion error the model answers `syntax` first, Rust the duplicate.
+  * THE REFUSAL CASES OF fmt.rs (`Cedar/SchemaFmtCheck.lean`: `toCedarChecked` = `json_schema_to_cedar_schema_str`):
+    `toCedar_refuses_iff`     refused iff some NAMED namespace declares a name both as entity type and as common type (`Collides`,
+                              error `NameCollisions`, priority) or some standard entity type's shape is not a record literal
+                              (`UnconvertibleEntityTypeShape`; such shapes are outside `EntityTypeJ` and passed as a name list);
+                              otherwise the printed fragment;
+    `finding_clash_not_refused`, `finding_shadow_not_refused`  the two recorded translation defects are NOT refused: the check skips
+                              the empty namespace, and does not look at references at all (kernel-checked on the fragments whose
+                              declaration environments are those of `envOK_needed_clash` / `envOK_needed_shadow`).
+  * ANNOTATIONS (`Cedar/SchemaAnnot.lean`, lemmas `Lemmas/SchemaAnnot.lean`): `est::Annotations` maps (identifier keys in `BTreeMap`
+    order, optional values), `Annotations::fmt_indented`, the grammar's `Annotation*` + `deduplicate_annotations`:
+    `annotations_roundtrip`   an annotation map comes back with the same keys and values, an absent value (`@key`, JSON `null`) as `""`
+                              (`annotation_null_becomes_empty`); `annotations_parser_accepts_more`: sorting, `DuplicateAnnotations`;
+    `annotated_namespace_roundtrip`  a namespace body whose common types / entity types / actions each carry an annotation map reads
+                              back as the same declarations (`annotated_namespace_strip`: exactly those of `fragment_roundtrip`)
+                              each with its normalised annotations;
+    `annotated_fragment_roundtrip`  a WHOLE annotated fragment (`FragmentA`: annotations on `namespace` blocks and on every
+                              declaration) printed and parsed by `parseItemsA` (`Annotated<Namedspace> | Annotated<Decl>`) gives the
+                              items of the un-annotated theorem, each with its normalised annotation map, and these convert to
+                              `normFragment f.strip`; non-vacuity: `demoFragmentA`.  Annotations on record ATTRIBUTES are outside the
+                              model; values are token-level strings (escaping belongs to the lexer); the JSON-side pairing of
+                              converted entries with their annotations is not modelled (AST level only).
+NOT modelled (covered only by the four-way differential run of harness/src/c09.rs): the lexer and string escapes, annotations on record
+attributes, action `attributes`, records with additional attributes, JSON (de)serialisation, and everything `ValidatorSchema`
+construction does after name resolution (common-type inlining, cycle detection, hierarchy closure, action entities).
 -/
 namespace Cedar.C09
 open Cedar.SchemaSyntax
@@ -499,5 +533,327 @@ example : (normFragment demoFragment).empty.map (fun d => d.actions.map fun x =>
     (normFragment demoFragment).named.map (fun x => x.2.actions.map fun y => (y.1, y.2.memberOf)) =
       [[("all", none), ("view doc", some [⟨some ⟨[], "Action"⟩, "all"⟩, ⟨some ⟨["NS"], "Action"⟩, "adm in"⟩])]] := by
   refine ⟨by decide, by decide⟩
+
+/-! ## the `BTreeMap` collection of the parsed declarations (`Cedar/SchemaCollect.lean`, lemmas `Lemmas/SchemaCollect.lean`) -/
+
+/-- WHOLE FRAGMENT, COLLECTED: for a JSON fragment with the `BTreeMap` invariant at every level (`FragKeysOK`: keys distinct and in
+key order — `SmolStr` order for declaration names, the derived `InternalName` order, basename first, for namespace names), printing,
+parsing, the duplicate checks of `build_namespace_bindings` and the `BTreeMap` collection give exactly `normFragment f`: nothing is
+refused as a duplicate and no entry moves. -/
+theorem fragment_roundtrip_collected (f : FragmentJ) (hw : WFFrag f) (hs : SortedFrag f) (hk : FragKeysOK f) :
+    parseFragmentCollected (printFragmentJ f) = .ok (normFragment f) := by
+  simp only [parseFragmentCollected, fragment_roundtrip f hw hs]
+  exact collectFragment_of_keysOK _ (fragKeysOK_normFragment f hk)
+
+/-- the same statement with the two stages visible -/
+theorem fragment_roundtrip_collected_bind (f : FragmentJ) (hw : WFFrag f) (hs : SortedFrag f) (hk : FragKeysOK f) :
+    (parseFragment (printFragmentJ f)).map collectFragment = some (.ok (normFragment f)) := by
+  rw [fragment_roundtrip f hw hs]
+  simp [collectFragment_of_keysOK _ (fragKeysOK_normFragment f hk)]
+
+theorem demoFragment_keysOK : FragKeysOK demoFragment := by
+  refine ⟨?_, ?_, ?_⟩
+  · intro d hd
+    simp only [demoFragment, Option.some.injEq] at hd
+    subst hd
+    refine ⟨?_, ?_, ?_⟩ <;> simp [KeysSorted] <;> decide +kernel
+  · intro x hx
+    simp only [demoFragment, List.mem_cons, List.not_mem_nil, or_false] at hx
+    subst hx
+    refine ⟨?_, ?_, ?_⟩ <;> simp [KeysSorted] <;> decide +kernel
+  · simp [demoFragment]
+
+example : parseFragmentCollected (printFragmentJ demoFragment) = .ok (normFragment demoFragment) :=
+  fragment_roundtrip_collected _ demoFragment_ok.1 demoFragment_ok.2 demoFragment_keysOK
+
+/-- some namespace of the fragment declares an entity type, an action or a common type twice -/
+def DupDecl (f : FragmentJ) : Prop :=
+  ∃ d, (f.empty = some d ∨ ∃ q, (q, d) ∈ f.named) ∧
+    (hasDupKeys (d.entities.map (·.1)) = true ∨ hasDupKeys (d.actions.map (·.1)) = true ∨ hasDupKeys (d.commons.map (·.1)) = true)
+
+theorem dupDecl_iff (f : FragmentJ) : DupDecl f ↔ (f.named.any (fun x => nsHasDup x.2) || optNsHasDup f.empty) = true := by
+  simp only [DupDecl, Bool.or_eq_true, List.any_eq_true]
+  constructor
+  · rintro ⟨d, hd | ⟨q, hq⟩, h⟩
+    · right; simpa [hd, optNsHasDup, nsHasDup, or_assoc] using h
+    · left; exact ⟨(q, d), hq, by simpa [nsHasDup, or_assoc] using h⟩
+  · rintro (⟨x, hx, h⟩ | h)
+    · exact ⟨x.2, Or.inr ⟨x.1, hx⟩, by simpa [nsHasDup, or_assoc] using h⟩
+    · cases he : f.empty with
+      | none => simp [he, optNsHasDup] at h
+      | some d => exact ⟨d, Or.inl rfl, by simpa [he, optNsHasDup, nsHasDup, or_assoc] using h⟩
+
+/-- DUPLICATES are refused with the modelled error class, and only they are refused: a repeated entity-type / action / common-type
+name in one namespace is `DuplicateDeclarations` (whatever else the fragment contains); otherwise a repeated namespace name is
+`DuplicateNameSpaces`; otherwise the fragment is accepted (its entries sorted).  A name declared BOTH as an entity type and as a
+common type is no duplicate (`collect_allows_entity_common_clash`). -/
+theorem collect_rejects_duplicates (f : FragmentJ) :
+    (DupDecl f → collectFragment f = .error .duplicateDecl) ∧
+    (¬ DupDecl f → hasDupKeys (f.named.map (·.1)) = true → collectFragment f = .error .duplicateNamespace) ∧
+    (¬ DupDecl f → hasDupKeys (f.named.map (·.1)) = false → ∃ g, collectFragment f = .ok g) := by
+  refine ⟨?_, ?_, ?_⟩
+  · intro h
+    simp [collectFragment, (dupDecl_iff f).1 h]
+  · intro h h2
+    have : (f.named.any (fun x => nsHasDup x.2) || optNsHasDup f.empty) = false := by
+      cases hb : (f.named.any (fun x => nsHasDup x.2) || optNsHasDup f.empty) with
+      | false => rfl
+      | true => exact absurd ((dupDecl_iff f).2 hb) h
+    simp [collectFragment, this, h2]
+  · intro h h2
+    have : (f.named.any (fun x => nsHasDup x.2) || optNsHasDup f.empty) = false := by
+      cases hb : (f.named.any (fun x => nsHasDup x.2) || optNsHasDup f.empty) with
+      | false => rfl
+      | true => exact absurd ((dupDecl_iff f).2 hb) h
+    simp [collectFragment, this, h2]
+
+/-- the keys of one namespace: common types, entity types, actions -/
+structure NsKeys where
+  commons : List String
+  entities : List String
+  actions : List String
+deriving DecidableEq, Repr
+
+/-- what a text is answered: the error class, or the keys in collected order -/
+structure CollectOutcome where
+  err : Option DeclErr
+  empty : Option NsKeys
+  named : List (QName × NsKeys)
+deriving DecidableEq, Repr
+
+def nsKeysOf (d : NamespaceJ) : NsKeys := ⟨d.commons.map (·.1), d.entities.map (·.1), d.actions.map (·.1)⟩
+
+def collectOutcome (toks : List Tok) : CollectOutcome :=
+  match parseFragmentCollected toks with
+  | .error e => ⟨some e, none, []⟩
+  | .ok g => ⟨none, g.empty.map nsKeysOf, g.named.map fun x => (x.1, nsKeysOf x.2)⟩
+
+/-- each duplicate kind, end to end from tokens: `entity A; entity A;` · `entity A, A;` · `entity A; entity A enum ["x"];` ·
+`action a; action "a";` · `type T = Long; type T = Bool;` (all `DuplicateDeclarations`) · `namespace N {} namespace N {}`
+(`DuplicateNameSpaces`) · a duplicate declaration wins over a duplicate namespace · the same name in DIFFERENT namespaces is fine -/
+theorem collect_rejects_duplicates_examples :
+    (collectOutcome [.id "entity", .id "A", .other ";", .id "entity", .id "A", .other ";"]).err = some .duplicateDecl ∧
+    (collectOutcome [.id "entity", .id "A", .comma, .id "A", .other ";"]).err = some .duplicateDecl ∧
+    (collectOutcome [.id "entity", .id "A", .other ";", .id "entity", .id "A", .id "enum", .other "[", .str "x", .other "]", .other ";"]).err = some .duplicateDecl ∧
+    (collectOutcome [.id "action", .id "a", .other ";", .id "action", .str "a", .other ";"]).err = some .duplicateDecl ∧
+    (collectOutcome [.id "type", .id "T", .other "=", .id "Long", .other ";", .id "type", .id "T", .other "=", .id "Bool", .other ";"]).err = some .duplicateDecl ∧
+    (collectOutcome [.id "namespace", .id "N", .lb, .rb, .id "namespace", .id "N", .lb, .rb]).err = some .duplicateNamespace ∧
+    (collectOutcome [.id "namespace", .id "N", .lb, .id "entity", .id "A", .comma, .id "A", .other ";", .rb, .id "namespace", .id "N", .lb, .rb]).err = some .duplicateDecl ∧
+    collectOutcome [.id "namespace", .id "N", .lb, .id "entity", .id "A", .other ";", .rb, .id "entity", .id "A", .other ";"] =
+      ⟨none, some ⟨[], ["A"], []⟩, [(⟨[], "N"⟩, ⟨[], ["A"], []⟩)]⟩ := by
+  refine ⟨by decide +kernel, by decide +kernel, by decide +kernel, by decide +kernel, by decide +kernel, by decide +kernel,
+    by decide +kernel, by decide +kernel⟩
+
+/-- `entity T; type T = Long;`: entity names and common-type names are collected into different maps — NOT refused here (whether the
+pair is usable is decided by name resolution: `envOK_needed_clash`) -/
+theorem collect_allows_entity_common_clash :
+    collectOutcome [.id "entity", .id "T", .other ";", .id "type", .id "T", .other "=", .id "Long", .other ";"] =
+      ⟨none, some ⟨["T"], ["T"], []⟩, []⟩ := by decide +kernel
+
+/-- the collection SORTS: declarations and namespaces written out of order come back in key order; namespace names are ordered by
+BASENAME first (`B::A` before `A::B`: derived `Ord` of `InternalName`) -/
+theorem collect_sorts_example :
+    collectOutcome [.id "entity", .id "b", .comma, .id "a", .other ";", .id "action", .id "z", .comma, .str "A b", .other ";",
+        .id "namespace", .id "A", .dcolon, .id "B", .lb, .rb, .id "namespace", .id "B", .dcolon, .id "A", .lb, .rb, .id "entity", .id "B", .other ";"] =
+      ⟨none, some ⟨[], ["B", "a", "b"], ["A b", "z"]⟩, [(⟨["B"], "A"⟩, ⟨[], [], []⟩), (⟨["A"], "B"⟩, ⟨[], [], []⟩)]⟩ := by decide +kernel
+
+/-! ## the refusal cases of fmt.rs (`Cedar/SchemaFmtCheck.lean`) -/
+
+/-- some NAMED namespace declares the same name as an entity type and as a common type -/
+def Collides (f : FragmentJ) : Prop :=
+  ∃ x ∈ f.named, ∃ n, n ∈ x.2.entities.map (·.1) ∧ n ∈ x.2.commons.map (·.1)
+
+theorem fragCollisions_eq_nil_iff (l : List (QName × NamespaceJ)) :
+    fragCollisions l = [] ↔ ∀ x ∈ l, ∀ n, n ∈ x.2.entities.map (·.1) → ¬ n ∈ x.2.commons.map (·.1) := by
+  induction l with
+  | nil => simp [fragCollisions]
+  | cons x rest ih =>
+    obtain ⟨q, d⟩ := x
+    simp only [fragCollisions, List.append_eq_nil_iff, ih, List.forall_mem_cons, nsCollisions, List.map_eq_nil_iff,
+      List.filter_eq_nil_iff, List.contains_iff_mem]
+
+theorem fragCollisions_ne_nil_iff (l : List (QName × NamespaceJ)) :
+    fragCollisions l ≠ [] ↔ ∃ x ∈ l, ∃ n, n ∈ x.2.entities.map (·.1) ∧ n ∈ x.2.commons.map (·.1) := by
+  constructor
+  · intro h
+    apply Classical.byContradiction
+    intro hn
+    exact h ((fragCollisions_eq_nil_iff l).2 fun x hx n he hc => hn ⟨x, hx, n, he, hc⟩)
+  · rintro ⟨x, hx, n, he, hc⟩ h
+    exact (fragCollisions_eq_nil_iff l).1 h x hx n he hc
+
+/-- fmt.rs REFUSES EXACTLY on the modelled predicates: a fragment is refused iff a named namespace has an entity-type / common-type
+name collision or some standard entity type's shape is not a record literal; the collision error has priority; otherwise the result
+is the printed fragment. -/
+theorem toCedar_refuses_iff (f : FragmentJ) (nonRec : List QName) :
+    ((∃ e, toCedarChecked f nonRec = .error e) ↔ (Collides f ∨ nonRec ≠ [])) ∧
+    (Collides f → ∃ l, l ≠ [] ∧ toCedarChecked f nonRec = .error (.nameCollisions l)) ∧
+    (¬ Collides f → nonRec ≠ [] → toCedarChecked f nonRec = .error (.unconvertibleShape nonRec)) ∧
+    (¬ Collides f → nonRec = [] → toCedarChecked f nonRec = .ok (printFragmentJ f)) := by
+  have hc := fragCollisions_ne_nil_iff f.named
+  unfold Collides
+  rw [← hc]
+  cases hfc : fragCollisions f.named with
+  | cons c cs => simp [toCedarChecked, hfc]
+  | nil =>
+    cases nonRec with
+    | nil => simp [toCedarChecked, hfc]
+    | cons n ns => simp [toCedarChecked, hfc]
+
+/-- a collision in namespace `NS` is refused (with the qualified name); the same collision in the EMPTY namespace is not -/
+example :
+    toCedarChecked ⟨none, [(⟨[], "NS"⟩, ⟨[("T", .long)], [("T", .standard ⟨[], .nil, none⟩)], []⟩)]⟩ = .error (.nameCollisions [⟨["NS"], "T"⟩]) ∧
+    toCedarChecked ⟨some ⟨[("T", .long)], [("T", .standard ⟨[], .nil, none⟩)], []⟩, []⟩ =
+      .ok [.id "type", .id "T", .other "=", .id "__cedar", .dcolon, .id "Long", .other ";", .id "entity", .id "T", .other ";"] := by
+  refine ⟨by decide +kernel, by decide +kernel⟩
+
+/-- FINDING 1 (C09-entity-ref-rebinds-to-common-type-empty-namespace) IS NOT COVERED BY THE CHECK: the empty namespace declares `T` as
+a common type and as an entity type and `U.x` is the must-be-entity reference `{"type":"Entity","name":"T"}`.  fmt.rs does not refuse
+(the collision check skips the empty namespace), prints the reference as the bare `T`, and in the fragment's own declaration
+environment — exactly the one of `envOK_needed_clash` — the entity reference resolves to the entity type, the printed `T` to the
+common type. -/
+theorem finding_clash_not_refused :
+    let f : FragmentJ := ⟨some ⟨[("T", .long)],
+        [("T", .standard ⟨[], .nil, none⟩), ("U", .standard ⟨[], .cons "x" true (.entity ⟨[], "T"⟩) .nil, none⟩)], []⟩, []⟩
+    toCedarChecked f = .ok [.id "type", .id "T", .other "=", .id "__cedar", .dcolon, .id "Long", .other ";", .id "entity", .id "T", .other ";",
+        .id "entity", .id "U", .other "=", .lb, .id "x", .colon, .id "T", .rb, .other ";"] ∧
+    (envOfFragment f).commons = [⟨[], "T"⟩] ∧ (envOfFragment f).entities = [⟨[], "T"⟩, ⟨[], "U"⟩] ∧
+    resolveRef (envOfFragment f) [] .entity ⟨[], "T"⟩ = some (.entity ⟨[], "T"⟩) ∧
+    resolveRef (envOfFragment f) [] .either ⟨[], "T"⟩ = some (.common ⟨[], "T"⟩) := by
+  refine ⟨by decide +kernel, by decide +kernel, by decide +kernel, by decide +kernel, by decide +kernel⟩
+
+/-- FINDING 2 (C09-common-ref-rebinds-to-entity-type) IS NOT COVERED EITHER: namespace `A` declares an entity type `ipaddr` and `E.x` is
+the must-be-common reference `{"type":"ipaddr"}`.  No common type is declared, so nothing collides; fmt.rs prints the bare `ipaddr`,
+which in `A` resolves to the entity type `A::ipaddr` while the original resolved to the builtin alias. -/
+theorem finding_shadow_not_refused :
+    let f : FragmentJ := ⟨none, [(⟨[], "A"⟩, ⟨[],
+        [("E", .standard ⟨[], .cons "x" true (.commonRef ⟨[], "ipaddr"⟩) .nil, none⟩), ("ipaddr", .standard ⟨[], .nil, none⟩)], []⟩)]⟩
+    toCedarChecked f = .ok [.id "namespace", .id "A", .lb, .id "entity", .id "E", .other "=", .lb, .id "x", .colon, .id "ipaddr", .rb, .other ";",
+        .id "entity", .id "ipaddr", .other ";", .rb] ∧
+    (envOfFragment f).commons = [] ∧ (envOfFragment f).entities = [⟨["A"], "E"⟩, ⟨["A"], "ipaddr"⟩] ∧
+    resolveRef (envOfFragment f) ["A"] .common ⟨[], "ipaddr"⟩ = some (.common ⟨[], "ipaddr"⟩) ∧
+    resolveRef (envOfFragment f) ["A"] .either ⟨[], "ipaddr"⟩ = some (.entity ⟨["A"], "ipaddr"⟩) := by
+  refine ⟨by decide +kernel, by decide +kernel, by decide +kernel, by decide +kernel, by decide +kernel⟩
+
+/-- an entity type whose shape is a common-type reference (not expressible as `EntityTypeJ`) is refused when nothing collides -/
+example : toCedarChecked ⟨none, [(⟨[], "NS"⟩, ⟨[("S", .record .nil)], [], []⟩)]⟩ [⟨["NS"], "E"⟩] = .error (.unconvertibleShape [⟨["NS"], "E"⟩]) := by
+  decide +kernel
+
+/-! ## annotations (`Cedar/SchemaAnnot.lean`, lemmas `Lemmas/SchemaAnnot.lean`) -/
+
+/-- an ANNOTATION MAP (`est::Annotations`: identifier keys in `BTreeMap` order, values optional) printed by `Annotations::fmt_indented`
+(`@key("value")`, `@key` for an absent value) and read by the grammar's `Annotation*` + `deduplicate_annotations` comes back as
+`normAnns` of itself: same keys, same values, an ABSENT value (`null` in JSON) becomes `""`.  `R` is what follows (a declaration, the
+`namespace` keyword, `}` or the end of the input — anything not starting with a punctuation token like `@` or `(`). -/
+theorem annotations_roundtrip (a : AnnsJ) (hw : WFAnns a) (hk : KeysSorted a) (R : List Tok) (hR : startsId R = true) :
+    parseAnnotations (printAnns a ++ R) = some (normAnns a, R) :=
+  parseAnnotations_print a hw hk R hR
+
+example : parseAnnotations (printAnns [("doc", some "a \"doc\""), ("if", none), ("z", some "")] ++ [.id "entity", .id "E", .other ";"]) =
+    some ([("doc", some "a \"doc\""), ("if", some ""), ("z", some "")], [.id "entity", .id "E", .other ";"]) :=
+  annotations_roundtrip _ (by intro x hx; simp at hx; rcases hx with rfl | rfl | rfl <;> decide +kernel)
+    (by simp [KeysSorted]; decide +kernel) _ (by decide +kernel)
+
+/-- what the parser does beyond the printed forms: annotations in any order are SORTED, a repeated key is refused
+(`DuplicateAnnotations`), a key must be identifier-shaped, the value a single string literal in parentheses -/
+theorem annotations_parser_accepts_more :
+    parseAnnotations [.other "@", .id "z", .other "@", .id "a", .other "(", .str "v", .other ")", .id "type"] =
+      some ([("a", some "v"), ("z", some "")], [.id "type"]) ∧
+    parseAnnotations [.other "@", .id "a", .other "@", .id "a", .other "(", .str "v", .other ")", .id "type"] = none ∧
+    parseAnnotations [.other "@", .str "a", .id "type"] = none ∧
+    parseAnnotations [.other "@", .id "a b", .id "type"] = none ∧
+    parseAnnotations [.id "type"] = some ([], [.id "type"]) := by
+  refine ⟨by decide +kernel, by decide +kernel, by decide +kernel, by decide +kernel, by decide +kernel⟩
+
+/-- the absent-value normalisation is a genuine change of the JSON fragment: `{"annotations": {"a": null}}` comes back as
+`{"annotations": {"a": ""}}` (both denote the annotation value `""`: `Annotation::with_optional_value`) -/
+theorem annotation_null_becomes_empty :
+    parseAnnotations (printAnns [("a", none)] ++ [.id "entity"]) = some ([("a", some "")], [.id "entity"]) := by decide +kernel
+
+/-- an ANNOTATED NAMESPACE BODY (`Annotated<Decl>*`): common types, entity types of both kinds and actions, each with its annotation
+map, printed by `NamespaceDefinition::fmt_indented` and read by the grammar, come back as the Cedar declarations the un-annotated
+theorems talk about (`fragment_roundtrip`), each with `normAnns` of its annotations; `rest` is what follows the body (`}` or the
+end of the input). -/
+theorem annotated_namespace_roundtrip (d : NamespaceA) (hw : WFNs d.strip) (ha : AnnsOKNs d) (fuel : Nat)
+    (rest : List Tok) (hr : isDeclStart rest = false) (hs : startsId rest = true) (hf : nsCount d.strip < fuel) :
+    parseDeclListA fuel (printNsA d ++ rest) =
+      some ((triplesOfNsA d).map (fun x => (normAnns x.1, x.2.2)), rest) := by
+  have h := parseDeclListA_triples (triplesOfNsA d) fuel rest (good_triplesOfNsA d hw ha) hr hs
+    (by simpa [triplesOfNsA, nsCount, NamespaceA.strip] using (by simp [nsCount, NamespaceA.strip] at hf; omega))
+  rwa [printTriples_nsA] at h
+
+/-- forgetting the annotations of the parsed body gives exactly the declarations of the un-annotated theorem (`declsOfNs`), so
+`convertDecls` (to_json_schema.rs) turns them into `normNs d.strip` as in `fragment_roundtrip` -/
+theorem annotated_namespace_strip (d : NamespaceA) : (triplesOfNsA d).map (·.2.2) = declsOfNs d.strip := by
+  simp [triplesOfNsA, declsOfNs, pairsOfNs, pairsOfCommons, pairsOfEntities, pairsOfActions, NamespaceA.strip, Function.comp_def]
+
+/-- `@doc("types") type Ctx = {…};  @a @b("x") entity Color enum [..];  action "view doc" …;` followed by `}` -/
+def demoNsA : NamespaceA :=
+  { commons := [([("doc", some "types")], "Ctx", .record (.cons "ip" false (.ext "ipaddr") .nil))],
+    entities := [([("a", none), ("b", some "x")], "Color", .enum ["red", "dark blue"])],
+    actions := [([], "view doc", demoAction)] }
+
+theorem demoNsA_ok : WFNs demoNsA.strip ∧ AnnsOKNs demoNsA := by
+  refine ⟨?_, ?_⟩
+  · refine ⟨?_, ?_, ?_⟩
+    · intro x hx
+      simp only [demoNsA, NamespaceA.strip, List.map_cons, List.map_nil, List.mem_cons, List.not_mem_nil, or_false] at hx
+      subst hx
+      refine ⟨by decide, by decide, by decide, ?_⟩
+      simp [WFJ, WFAJ]; decide
+    · intro x hx
+      simp only [demoNsA, NamespaceA.strip, List.map_cons, List.map_nil, List.mem_cons, List.not_mem_nil, or_false] at hx
+      subst hx
+      exact ⟨by decide, by decide, by simp⟩
+    · intro x hx
+      simp only [demoNsA, NamespaceA.strip, List.map_cons, List.map_nil, List.mem_cons, List.not_mem_nil, or_false] at hx
+      subst hx
+      exact demoAction_wf.1
+  · refine ⟨?_, ?_, ?_⟩ <;> intro x hx <;>
+      simp only [demoNsA, List.mem_cons, List.not_mem_nil, or_false] at hx <;> subst hx
+    · exact ⟨by intro y hy; simp at hy; subst hy; decide +kernel, by simp [KeysSorted]⟩
+    · exact ⟨by intro y hy; simp at hy; rcases hy with rfl | rfl <;> decide +kernel, by simp [KeysSorted]; decide +kernel⟩
+    · exact ⟨by intro y hy; simp at hy, by simp [KeysSorted]⟩
+
+example : ∃ ds, parseDeclListA 10 (printNsA demoNsA ++ [.rb]) = some (ds, [.rb]) ∧
+    ds.map (·.1) = [[("doc", some "types")], [("a", some ""), ("b", some "x")], []] :=
+  ⟨_, annotated_namespace_roundtrip demoNsA demoNsA_ok.1 demoNsA_ok.2 10 [.rb] (by decide) (by decide) (by decide), by decide +kernel⟩
+
+/-- WHOLE ANNOTATED FRAGMENT: annotations on `namespace` blocks and on every declaration (`FragmentA`; the empty namespace has none of
+its own, as the JSON deserialiser demands).  The printed fragment parses (`parseItemsA`: `Annotated<Namedspace> | Annotated<Decl>`) to
+`itemsOfA f` — every annotation map in its `normAnns` form (same keys and values, absent value ↦ `""`) — and, forgetting the
+annotations, these are exactly the items of the un-annotated theorem, which to_json_schema.rs converts to `normFragment f.strip`.
+Not covered: annotations on record ATTRIBUTES (inside type expressions), and the JSON-side pairing of each converted entry with its
+annotations (`convert_entity_decl` clones the annotations of a multi-name declaration onto every name; trivial for printed
+fragments, where every declaration has one name). -/
+theorem annotated_fragment_roundtrip (f : FragmentA) (hw : WFFragA f) (hs : SortedFrag f.strip) :
+    parseItemsA ((printFragmentA f).length + 1) (printFragmentA f) = some (itemsOfA f) ∧
+    toJsonFragment ((itemsOfA f).map ItemA.strip) = some (normFragment f.strip) := by
+  refine ⟨parseItemsA_fragment f hw.1 hw.2, ?_⟩
+  rw [itemsOfA_strip]
+  exact toJsonFragment_itemsOf f.strip (wfFrag_strip f hw) hs
+
+/-- `@doc("ns") @internal namespace NS { <demoNsA> }` -/
+def demoFragmentA : FragmentA := ⟨none, [(⟨[], "NS"⟩, [("doc", some "ns"), ("internal", none)], demoNsA)]⟩
+
+example : ∃ its, parseItemsA ((printFragmentA demoFragmentA).length + 1) (printFragmentA demoFragmentA) = some its ∧
+    its.map (fun | .ns a q ds => (a, q, ds.map (·.1)) | .decl a _ => (a, ⟨[], ""⟩, [])) =
+      [([("doc", some "ns"), ("internal", some "")], ⟨[], "NS"⟩, [[("doc", some "types")], [("a", some ""), ("b", some "x")], []])] := by
+  refine ⟨_, (annotated_fragment_roundtrip demoFragmentA ⟨by intro d hd; simp [demoFragmentA] at hd, ?_⟩ ?_).1, by decide +kernel⟩
+  · intro x hx
+    simp only [demoFragmentA, List.mem_cons, List.not_mem_nil, or_false] at hx
+    subst hx
+    refine ⟨by simp [QName.comps]; decide, by decide, demoNsA_ok.1, ?_, ?_, demoNsA_ok.2⟩
+    · intro y hy; simp at hy; rcases hy with rfl | rfl <;> decide +kernel
+    · simp [KeysSorted]; decide +kernel
+  · refine ⟨by intro d hd; simp [demoFragmentA, FragmentA.strip] at hd, ?_⟩
+    intro x hx
+    simp only [demoFragmentA, FragmentA.strip, List.map_cons, List.map_nil, List.mem_cons, List.not_mem_nil, or_false] at hx
+    subst hx
+    refine ⟨?_, ?_, ?_⟩ <;> intro y hy <;>
+      simp only [demoNsA, NamespaceA.strip, List.map_cons, List.map_nil, List.mem_cons, List.not_mem_nil, or_false] at hy <;> subst hy
+    · simp [SortedT, SortedA, keysJ]
+    · trivial
+    · exact demoAction_wf.2
 
 end Cedar.C09
